@@ -1,4 +1,4 @@
-\* quick: as kv with a single key (values: absent, empty, v1), nested bucket, commit/rollback, flush or not, crash between commits, clean restart
+\* quick: as kv with a single key (values: absent, empty, v1), nested bucket, commit/rollback, flush or not, crash between commits and after every I/O call of a commit, clean restart
 INIT Init
 NEXT Next
 CONSTANTS
@@ -15,7 +15,7 @@ CONSTANTS
   Readers <- NoReaders
   MaxReads = 0
   MaxFaults = 0
-  CrashMode = "idle"
+  CrashMode = "steps"
   PowerLoss = FALSE
   MaxCrash = 1
   FlushModes <- FlushBoth
